@@ -944,15 +944,23 @@ func RuleFCells(c *core.Ctx) {
 			continue
 		}
 		have := typeSwitchTypes(fn)
-		isCellSwitch := false
+		nCellTypes := 0
 		for name := range have {
 			for _, cell := range cells {
 				if name == cell {
-					isCellSwitch = true
+					nCellTypes++
 				}
 			}
 		}
-		if !isCellSwitch {
+		// a dispatch names at least two cell types; a single `x.(SeparatorCell)`
+		// test is a membership question like the predicates below
+		if nCellTypes < 2 {
+			continue
+		}
+		if onlyBoolResults(fn) {
+			// a membership predicate ("is this a separator or an empty cell?"): a
+			// partial switch is a set test, not a dispatch; what is done with the
+			// answer is judged where it is used (K-width-all)
 			continue
 		}
 		nSwitch++
@@ -1039,6 +1047,134 @@ func RuleFCells(c *core.Ctx) {
 		c.Ob(rule, key, 0, "", core.Violated, fmt.Sprintf("only %d site converts a number cell's decimal with numToString: column width and rendered text disagree, lines get different widths", sites))
 	}
 	c.Floor(rule, 8)
+}
+
+func onlyBoolResults(fn *ssa.Function) bool {
+	res := fn.Signature.Results()
+	if res.Len() == 0 {
+		return false
+	}
+	for i := 0; i < res.Len(); i++ {
+		if b, ok := res.At(i).Type().Underlying().(*types.Basic); !ok || b.Kind() != types.Bool {
+			return false
+		}
+	}
+	return true
+}
+
+// cellMeasures: the functions of the table package that compute a width (an
+// int) from a cell: a type switch over the cell types, or a method of the cell
+// interface, with an int result.
+func cellMeasures(p *core.Prog) map[*ssa.Function]bool {
+	res := map[*ssa.Function]bool{}
+	tp := p.Package(pkgTable)
+	if tp == nil {
+		return res
+	}
+	cellObj := tp.Scope().Lookup("cell")
+	if cellObj == nil {
+		return res
+	}
+	isInt := func(fn *ssa.Function) bool {
+		r := fn.Signature.Results()
+		if r.Len() != 1 {
+			return false
+		}
+		b, ok := r.At(0).Type().Underlying().(*types.Basic)
+		return ok && b.Kind() == types.Int
+	}
+	for _, fn := range p.SrcFuncs() {
+		if core.PkgPathOf(fn) != pkgTable || !isInt(fn) {
+			continue
+		}
+		takesCell := false
+		for _, prm := range fn.Params {
+			if types.Identical(prm.Type(), cellObj.Type()) || types.AssignableTo(prm.Type(), cellObj.Type()) && prm == fn.Params[0] && fn.Signature.Recv() != nil && types.Implements(prm.Type(), cellObj.Type().Underlying().(*types.Interface)) {
+				takesCell = true
+			}
+		}
+		if takesCell {
+			res[fn] = true
+		}
+	}
+	return res
+}
+
+// RuleKWidthAll — every cell of every row contributes to the width of its
+// column: the store `widths[i] = measure(cell)` is control-dependent only on
+// the loops over rows and cells and on the comparison between that slot and
+// the measured value. A row or cell that is skipped there is rendered wider
+// than its column and the lines of the table differ in width.
+func RuleKWidthAll(c *core.Ctx) {
+	const rule = "K-width-all"
+	p := c.P
+	measures := cellMeasures(p)
+	if len(measures) == 0 {
+		c.Anchor(rule, "a function of lib/common/table that measures a cell")
+		return
+	}
+	fromMeasure := func(v ssa.Value) bool {
+		for x := range originSet(p, v, 0) {
+			if call, ok := x.(*ssa.Call); ok {
+				for _, callee := range p.Callees(call) {
+					if measures[callee] {
+						return true
+					}
+				}
+			}
+		}
+		return false
+	}
+	n := 0
+	for _, fn := range p.SrcFuncs() {
+		if core.PkgPathOf(fn) != pkgTable {
+			continue
+		}
+		k := 0
+		core.EachInstr(fn, func(ins ssa.Instruction) {
+			st, ok := ins.(*ssa.Store)
+			if !ok {
+				return
+			}
+			ia, ok := st.Addr.(*ssa.IndexAddr)
+			if !ok || !fromMeasure(st.Val) {
+				return
+			}
+			_ = ia
+			n++
+			k++
+			key := fmt.Sprintf("%s:width update %d sees every cell", core.FuncName(fn), k)
+			bad := ""
+			for _, b := range fn.Blocks {
+				iff, ok := b.Instrs[len(b.Instrs)-1].(*ssa.If)
+				if !ok {
+					continue
+				}
+				if ctl, _ := core.Controls(b, st.Block()); !ctl {
+					continue
+				}
+				if core.IsLoopExitTest(b, st.Block()) || isLoopHeaderOf(fn, b, st.Block()) {
+					continue
+				}
+				if fromMeasure(iff.Cond) {
+					continue // widths[i] < measure(cell)
+				}
+				bad = p.Pos(iff.Cond.Pos())
+				if iff.Cond.Pos() == 0 {
+					bad = p.Pos(iff.Pos())
+				}
+			}
+			if bad == "" {
+				c.Ob(rule, key, st.Pos(), core.FuncName(fn), core.Discharged, "controlled only by the loops over rows and cells and by the comparison with the measured width")
+			} else {
+				c.Ob(rule, key, st.Pos(), core.FuncName(fn), core.Violated, "the width of a column is updated only under the condition at "+bad+": cells for which it fails do not widen their column, are rendered wider than it and the lines of the table differ in width")
+			}
+		})
+	}
+	if n == 0 {
+		c.Ob(rule, "table:column widths are computed from measured cells", 0, "", core.Undecided, "no store of a measured cell width into a slice was found in lib/common/table: the shape of the width computation is not known to this rule")
+	}
+	c.Floor(rule, 1)
 }
 
 // RuleFDirectiveTypes — the directive types agree along the pipeline: what
